@@ -1,6 +1,7 @@
 /- Driver handlers for the `cmp` (compressor accounting) and `ws.arch` (whole create session) streams. -/
 import SevenZ.Driver.Header
 import SevenZ.Model.WriteSession
+import SevenZ.Model.AppendSession
 namespace SevenZ.Driver
 open SevenZ SevenZ.Impl
 
@@ -60,6 +61,16 @@ def sessionHandler (op : String) (args : List String) : Option String :=
     pure (match sessionArchive cfg ms with
       | none => "none"
       | some b => toHex b)
+  | "ws.app", [base, en, coders, mm, stages, members] => do
+    let b ← parseHex base
+    let chain ← parseWStages stages
+    let mmap ← parseBits mm
+    let cs ← (if coders = "-" then some [] else (coders.splitOn "|").mapM parseCoderS)
+    let ms ← (if members = "." then some [] else (members.splitOn ";").mapM parseWMember)
+    let cfg : WConfig Bytes := { coders := cs, methodsMap := mmap, chain := chain, enableDigests := ← parseBool en }
+    pure (match appendArchive b cfg ms with
+      | none => "none"
+      | some r => toHex r)
   | _, _ => none
 
 end SevenZ.Driver
